@@ -179,22 +179,17 @@ impl BufferManager {
         size: usize,
         region: MemoryRegion,
     ) -> Option<MemoryGrant> {
-        // Check if we can allocate
-        let current = self.allocated.load(Ordering::Relaxed);
-
-        if current + size > self.hard_limit {
+        // Reserve the bytes; the limit check and the increment are one atomic step
+        if !self.try_reserve(size) {
             // Try eviction first
             self.run_eviction_cycle(true);
 
             // Check again
-            let current = self.allocated.load(Ordering::Relaxed);
-            if current + size > self.hard_limit {
+            if !self.try_reserve(size) {
                 return None;
             }
         }
 
-        // Perform allocation
-        self.allocated.fetch_add(size, Ordering::Relaxed);
         self.region_allocated[region.index()].fetch_add(size, Ordering::Relaxed);
 
         // Check pressure and potentially trigger background eviction
@@ -288,6 +283,30 @@ impl BufferManager {
 
     // === Internal methods ===
 
+    /// Adds `size` to the allocated total unless that would exceed the hard limit.
+    ///
+    /// Checking the limit and incrementing in two separate atomic operations lets
+    /// concurrent callers each pass the check and together exceed the limit, so
+    /// both happen in one compare-and-swap.
+    fn try_reserve(&self, size: usize) -> bool {
+        let mut current = self.allocated.load(Ordering::Relaxed);
+        loop {
+            let new = match current.checked_add(size) {
+                Some(new) if new <= self.hard_limit => new,
+                _ => return false,
+            };
+            match self.allocated.compare_exchange_weak(
+                current,
+                new,
+                Ordering::Relaxed,
+                Ordering::Relaxed,
+            ) {
+                Ok(_) => return true,
+                Err(actual) => current = actual,
+            }
+        }
+    }
+
     fn compute_pressure_level(&self, current: usize) -> PressureLevel {
         if current >= self.hard_limit {
             PressureLevel::Critical
@@ -363,19 +382,15 @@ impl GrantReleaser for BufferManager {
     }
 
     fn try_allocate_raw(&self, size: usize, region: MemoryRegion) -> bool {
-        let current = self.allocated.load(Ordering::Relaxed);
-
-        if current + size > self.hard_limit {
+        if !self.try_reserve(size) {
             // Try eviction
             self.run_eviction_cycle(true);
 
-            let current = self.allocated.load(Ordering::Relaxed);
-            if current + size > self.hard_limit {
+            if !self.try_reserve(size) {
                 return false;
             }
         }
 
-        self.allocated.fetch_add(size, Ordering::Relaxed);
         self.region_allocated[region.index()].fetch_add(size, Ordering::Relaxed);
         true
     }
